@@ -1,7 +1,7 @@
 #!/bin/bash
 # dev helper: generate + verus + short error listing
 cd /verif && python3 vf/dev.py ${1:-parser} || exit 2
-cd /var/tmp/vp && (time verus unit_${1:-parser}.rs --output-json --time --num-threads 16 ${VERUS_EXTRA} 2>err.txt >out.txt)
+cd /var/tmp/vp && (time verus unit_${1:-parser}.rs --output-json --time --num-threads 16 -V spinoff-all ${VERUS_EXTRA} 2>err.txt >out.txt)
 grep -c '^error' err.txt
 grep -B1 -A${CTX:-14} '^error' err.txt | grep -v '^warning' | head -${LINES_MAX:-120}
 python3 -c "
